@@ -1,0 +1,16 @@
+//go:build verif
+
+// Contracts for package unlocker, read by /verif's gobtvc. Comment-only; compiled only with -tags verif.
+
+package unlocker
+
+// ---- C04 (partial): what the library's signing path signs and what it installs ----
+// The unlocking script for a P2PKH (or P2PKH-inscription) output is <sig || hash type> <compressed public key>, where sig is
+// the (uninterpreted) ECDSA signature by the unlocker's key over exactly CalcInputSignatureHash(tx, input, hash type), the
+// hash type defaulting to ALL|FORKID (0x41).
+//@ func unlocker.(*Simple).UnlockingScript
+//@   bytes token
+//@   requires (and (not (nil? l)) (not (nil? (. l PrivateKey))) (not (nil? tx)))
+//@   requires (spec.inputs_nonnil tx) (spec.out_scripts_nonnil tx) (spec.outputs_nonnil tx)
+//@   requires (< (. params InputIdx) (len (. tx Inputs)))
+//@   ensures[C04.signs_forkid_digest] (=> (and (= err nil) (= (mod (div (spec.eff_flag (. params SigHashFlags)) 64) 2) 1)) (= (bytes r0) (spec.p2pkh_unlock (sigser (sig_of (. l PrivateKey) (bsha256d (old (spec.preimage143 tx (. params InputIdx) (spec.eff_flag (. params SigHashFlags))))))) (spec.eff_flag (. params SigHashFlags)) (pkser (pub_of (. l PrivateKey))))))
